@@ -8,6 +8,7 @@ LEAN_MODULES = ["MesaModel.Props.C06", "MesaModel.Props.C18Cells"]
 THEOREMS = ["Mesa.Cells." + t for t in (
     "C06_spaces_wellformed", "C06_mirror", "C06_capacity", "C06_views", "C06_select_random_empty_cell",
     "C06_remove_leaves_cell", "C06_direction_map_generated", "C06_invariant_all_histories",
+    "C06_histories_with_connection_edits",
     "C18_cells_setCell_reject_unchanged", "C18_cells_moveTo_reject_unchanged", "C18_cells_moveRelative_reject_unchanged",
     "C18_cells_gridMove_reject_unchanged", "C18_cells_rejected_call_is_noop")]
 COUNTS = {"quick": 1500, "thorough": 100000}
@@ -20,13 +21,14 @@ TRUSTED = [
 ]
 ASSUMPTIONS = [
     "capacities are None or integers >= 1 (the property's quantifier); cells are only reached through the space they belong to",
-    "connections are not edited after the space is built (Cell.connect/disconnect are not called by the histories)",
+    "Cell.connect / Cell.disconnect are called on cells of the space they belong to (connections never lead out of the space)",
 ]
 RULE = ("random histories on random spaces: Moore/von Neumann grids with 1-3 axes of size 1-4(6), hex grids, Network on random "
         "graphs <= 8 nodes (some directed), VoronoiGrid on 3-7 integer points in general position; torus on/off; capacity None/1/2/3; "
         "2-8 agents of the three classes; 10-45 ops from {set (incl. None, own cell, non-cell), move_to, move_relative (existing and "
         "missing keys), Grid2DMovingAgent.move (all names, random case, distances -1..5), remove, new, _try_random on/off, "
-        "select_random_empty_cell with scripted draws (misses then a hit), select_random_cell}; the full observation (agent.cell, "
+        "select_random_empty_cell with scripted draws (misses then a hit), select_random_cell}, every third scenario also with "
+        "Cell.connect / Cell.disconnect edits (existing, new and default keys, non-cells) at the cells of movable agents; the full observation (agent.cell, "
         "cell.agents, is_empty, is_full, empty layer, cell.empty, empties, space.agents, model.agents) is compared after every op; "
         "non-trivial = at least 3 accepted placements and one rejected call or emptiness query; distinct = distinct op-line sequences")
 HEADER_LINES = 1
@@ -38,7 +40,7 @@ def gen_tables():
 
 def generate(rng, tier, count):
     for i in range(count):
-        yield C.gen_c06(rng, rejecting=(i % 5 == 4))
+        yield C.gen_c06(rng, rejecting=(i % 5 == 4), edits=(i % 3 == 0))
 
 
 def generate_rejecting(rng, tier, count):
